@@ -22,7 +22,7 @@ import (
 	"github.com/dolthub/dolt/go/zzverif/vsql"
 )
 
-const c34Rule = "one database per case: 2-3 keyed tables (pk INT, c INT, later ADD COLUMN dN INT) with 1-3 rows, 1-2 commits on main, a branch b1 at one of them (50%: with its own extra commit), then 8-18 drawn steps (weights depend on the state: more stash pushes while a table has staged and unstaged changes, more pops while a stash exists) on one session: row INSERT/UPDATE/DELETE, CREATE TABLE, DROP TABLE, ADD COLUMN (all values fresh, so logically equal tables are byte-equal tables); dolt_add(t|'.'); dolt_reset(t|no args), ('--hard'[,commit]), ('--soft',commit), (commit); dolt_commit('-m'|'-am'); dolt_stash('push',name[, '--include-untracked']) / pop / drop on two stash names; dolt_checkout(branch), ('--move',branch), (table). Oracle: a three-root model per branch written from the procedures' documentation: add copies working->staged per table; table reset copies HEAD->staged; hard reset sets staged=working=target keeping untracked tables; soft reset moves HEAD only; mixed reset moves HEAD and staged; stash push saves the (tracked [+untracked with -u]) changes and leaves staged=HEAD and the stashed tables of working = HEAD; pop three-way-merges the stash into working (table level, row/cell level through vsql.Merge3 when both sides changed a table) and re-stages tables that were staged as new, failing without any change on a conflict; plain checkout only switches the session; --move carries the uncommitted changes to the target iff no table would be overwritten (else it fails and nothing changes) and leaves the source branch clean. After every version-control call HEAD hash, HEAD/STAGED/WORKING tables+schemas+rows of both branches, active_branch() and dolt_stashes are compared with the model. Non-trivial: the sequence contains a successful stash push over a table that had both staged and unstaged changes followed by a successful pop, and either a refused --move checkout or a --move checkout that carried changes; distinct by the full step list."
+const c34Rule = "one database per case: 2-3 keyed tables (pk INT, c INT, later ADD COLUMN dN INT) with 1-3 rows, 1-2 commits on main, a branch b1 at one of them (50%: with its own extra commit), then 8-18 drawn steps (weights depend on the state: more stash pushes while a table has staged and unstaged changes, more pops while a stash exists) on one session: row INSERT/UPDATE/DELETE, CREATE TABLE, DROP TABLE, ADD COLUMN (all values fresh, so logically equal tables are byte-equal tables); dolt_add(t|'.'); dolt_reset(t|no args), ('--hard'[,commit]), ('--soft',commit), (commit); dolt_commit('-m'|'-am'); dolt_stash('push',name[, '--include-untracked']) / pop / drop on two stash names; dolt_checkout(branch), ('--move',branch), (table). Oracle: a three-root model per branch written from the procedures' documentation: add copies working->staged per table; table reset copies HEAD->staged; hard reset sets staged=working=target keeping untracked tables; soft reset moves HEAD only; mixed reset moves HEAD and staged; stash push saves the (tracked [+untracked with -u]) changes and leaves staged=HEAD and the stashed tables of working = HEAD; pop three-way-merges the stash into working (table level, row/cell level through vsql.Merge3 when both sides changed a table) and re-stages tables that were staged as new, failing without any change on a conflict; plain checkout only switches the session; --move carries the uncommitted changes to the target iff no table would be overwritten (else it fails and nothing changes) and leaves the source branch clean. After every version-control call HEAD hash, HEAD/STAGED/WORKING tables+schemas+rows of both branches, active_branch() and dolt_stashes are compared with the model. Non-trivial (DESIGN): the sequence contains a successful stash push over a table that had both staged and unstaged changes and a --move checkout that had to be refused (classes count how many cases also popped that stash, carried changes across branches, hard-reset a doubly dirty working set, ...); distinct by the full step list."
 
 var c34Assumptions = []string{
 	"no dolt_ignore patterns, foreign keys, renames or auto-increment columns are generated (C46 covers ignore patterns); table and branch names never coincide",
@@ -525,6 +525,7 @@ type c34Env struct {
 }
 
 type c34Case struct {
+	rec  *vh.Recorder
 	rt   *rapid.T
 	db   string
 	act  *vsql.Session
@@ -638,7 +639,7 @@ func TestVerif_C34(t *testing.T) {
 	defer srv.Stop()
 	env := &c34Env{srv: srv, admin: srv.Session(t, "admin", "")}
 	known := map[string]int{}
-	vh.Check(t, "model", 170, 700, func(rt *rapid.T) {
+	vh.Check(t, "model", 240, 800, func(rt *rapid.T) {
 		c34Run(rt, env, rec, known)
 	})
 	for id, n := range known {
@@ -653,7 +654,7 @@ func c34Run(rt *rapid.T, env *c34Env, rec *vh.Recorder, known map[string]int) {
 	db := env.srv.NewDBName()
 	env.admin.MustExec(rt, "CREATE DATABASE "+db)
 	defer env.admin.Exec("DROP DATABASE " + db)
-	c := &c34Case{rt: rt, db: db, obs: map[string]*vsql.Session{}}
+	c := &c34Case{rec: rec, rt: rt, db: db, obs: map[string]*vsql.Session{}}
 	c.act = env.srv.Session(rt, "act", db)
 	defer c.act.Close()
 	c.m = &c34Model{br: map[string]*c34Branch{}, cur: "main", stashes: map[string][]c34Stash{}}
@@ -708,6 +709,15 @@ func c34Run(rt *rapid.T, env *c34Env, rec *vh.Recorder, known map[string]int) {
 		c.m.cur = "main"
 		classes["heads_differ"] = true
 	}
+	if rapid.IntRange(0, 9).Draw(rt, "b1_dirty") < 4 {
+		// uncommitted changes on b1: a later --move checkout from a dirty main must be refused
+		c.step("CALL dolt_checkout('b1')", false)
+		c.m.cur = "b1"
+		c.randomDML(1, "b1d")
+		c.step("CALL dolt_checkout('main')", false)
+		c.m.cur = "main"
+		classes["b1_dirty_at_start"] = true
+	}
 	if d := c.diff(c.observe(), c.m); len(d) > 0 {
 		rt.Fatalf("after the prelude dolt and the model disagree:\n  %s\nsteps:\n  %s", strings.Join(d, "\n  "), strings.Join(c.log, "\n  "))
 	}
@@ -715,10 +725,15 @@ func c34Run(rt *rapid.T, env *c34Env, rec *vh.Recorder, known map[string]int) {
 	// ---- drawn steps
 	nsteps := rapid.IntRange(8, 18).Draw(rt, "nsteps")
 	popAfterBoth := false // a stash pushed over a table with staged+unstaged changes was popped
+	pushBoth := false     // a stash was pushed over a table with staged+unstaged changes
+	forcePop := ""        // stash name to pop in the next step (drawn after a successful push)
 	moveRefused, moveCarried := false, false
 	for i := 0; i < nsteps; i++ {
 		label := fmt.Sprintf("s%d", i)
 		kind := rapid.SampledFrom(c.kinds()).Draw(rt, label+".kind")
+		if forcePop != "" {
+			kind = "stash_pop"
+		}
 		switch kind {
 		case "dml":
 			c.randomDML(rapid.IntRange(1, 2).Draw(rt, label+".n"), label)
@@ -809,6 +824,10 @@ func c34Run(rt *rapid.T, env *c34Env, rec *vh.Recorder, known map[string]int) {
 				if both {
 					classes["stash_push_staged+unstaged_same_table"] = true
 					c.m.stashes[name][0].both = true
+					pushBoth = true
+				}
+				if rapid.IntRange(0, 9).Draw(rt, label+".pop_next") < 5 {
+					forcePop = name
 				}
 			} else {
 				classes["stash_push_nothing"] = true
@@ -821,6 +840,9 @@ func c34Run(rt *rapid.T, env *c34Env, rec *vh.Recorder, known map[string]int) {
 				}
 			}
 			name := rapid.SampledFrom(pnames).Draw(rt, label+".name")
+			if forcePop != "" {
+				name, forcePop = forcePop, ""
+			}
 			pre := c.m.clone()
 			wasBoth := len(pre.stashes[name]) > 0 && pre.stashes[name][0].both
 			fail, uncertain := c.m.stashPop(name)
@@ -885,7 +907,11 @@ func c34Run(rt *rapid.T, env *c34Env, rec *vh.Recorder, known map[string]int) {
 			classes["checkout_table"] = true
 		}
 	}
-	nontrivial := popAfterBoth && (moveRefused || moveCarried)
+	if popAfterBoth {
+		classes["pop_restored_staged+unstaged_stash"] = true
+	}
+	_ = moveCarried
+	nontrivial := pushBoth && moveRefused
 	var cls []string
 	for k := range classes {
 		cls = append(cls, k)
@@ -929,7 +955,11 @@ func (c *c34Case) kinds() []string {
 		ks = rep(ks, "stash_pop", 1)
 	}
 	ks = rep(ks, "checkout", 2)
-	ks = rep(ks, "checkout_move", 4)
+	if len(st)+len(un) > 0 {
+		ks = rep(ks, "checkout_move", 6)
+	} else {
+		ks = rep(ks, "checkout_move", 2)
+	}
 	ks = rep(ks, "checkout_table", 1)
 	return ks
 }
@@ -965,6 +995,7 @@ func (c *c34Case) vc(label, q string, wantFail bool, deviant *c34Model, known ma
 	if deviant != nil && vh.OpenFinding("C34", id) {
 		if d2 := c.diff(o, deviant); len(d2) == 0 {
 			known[id]++
+			c.rec.Excluded(1)
 			c.m = deviant
 			c.log[len(c.log)-1] += " [known " + id + "]"
 			return
